@@ -49,6 +49,16 @@ def check(ctx):
     p = ctx.prog()
     calc = p.fn('engine::TimeManager::calculateTime')
     ctx.analysed(calc)
+    # the clock words of `go` fill the fields the allocation reads: wtime/btime the time left of WHITE/BLACK, winc/binc the
+    # increments, movestogo the number of moves (one turn of go_command's token loop per word)
+    from rules.ucitab import go_words, fills
+    gf_, gw = go_words(p)
+    ctx.analysed(gf_)
+    for w_, fld, ix in (('wtime', 'timeleft', 0), ('btime', 'timeleft', 1), ('winc', 'timeinc', 0), ('binc', 'timeinc', 1),
+                        ('movestogo', 'movestogo', None), ('movetime', 'movetime', None)):
+        ctx.ob('C20.R0.go-words', w_, w_ in gw and fills(gw[w_], fld, ix),
+               '`go %s N` reads N into limits.%s%s and nothing else (one turn of the token loop does %s)'
+               % (w_, fld, '' if ix is None else '[%s]' % ('WHITE', 'BLACK')[ix], gw.get(w_)), site=gf_.loc())
     params = {q['name']: q for q in calc.params}
     if not {'limits', 'side', 'ply'} <= set(params):
         raise AnalysisBroken('calculateTime(limits, side, ply) parameters not found')
